@@ -129,6 +129,27 @@ def run(ctx):
                         o = prim.origin_of_operand(ps, t.args[0]).strip()
                         if o.k == "const" and o.a.get("k") == "str":
                             lits.append(o.a["v"])
+                if not lits:
+                    # the pair built by a local helper closure: `pair("a", "m")` with `pair = |x, y| Some((x.to_string(), y.to_string()))`
+                    for x in sorted(reg):
+                        t = ps.blocks[x].term
+                        if t.k == "call" and t.j.get("callee_name") in ("call", "call_mut", "call_once") and len(t.args) == 2:
+                            clo = [y for y in prim.origin_of_operand(ps, t.args[0]).walk() if y.k == "agg" and str(y.a).startswith("closure:")]
+                            cf_ = ctx.prog.fns.get(str(clo[0].a).split(":", 1)[1]) if len(clo) == 1 else None
+                            tup = prim.origin_of_operand(ps, t.args[1]).strip()
+                            if cf_ is not None and tup.k == "agg" and tup.a == "tuple":
+                                r_ = prim.origin_of_local(cf_, 0).strip()
+                                comps = r_.kids[0].strip().kids if (r_.k == "agg" and str(r_.a).endswith("Option::Some") and r_.kids and r_.kids[0].strip().k == "agg" and r_.kids[0].strip().a == "tuple") else []
+                                order = []
+                                for cp in comps:
+                                    cps = cp.strip()
+                                    args_ = [y.a.get("idx") for y in cps.walk() if y.k == "arg"]
+                                    if cps.k == "call" and cps.a["name"] in ("to_string", "to_owned", "into", "from") and len(args_) == 1:
+                                        order.append(args_[0] - 2)
+                                if len(order) == 2 and all(0 <= i_ < len(tup.kids) for i_ in order):
+                                    vals = [tup.kids[i_].strip() for i_ in order]
+                                    if all(v_.k == "const" and v_.a.get("k") == "str" for v_ in vals):
+                                        lits = [v_.a["v"] for v_ in vals]
                 rows[tst["lit"]] = lits
         ctx.ob("R1", "newer-aliases", rows == {"-newer": ["m", "m"], "-anewer": ["a", "m"], "-cnewer": ["c", "m"]}, "alias table %s; oracle -newer=(m,m), -anewer=(a,m), -cnewer=(c,m)" % rows, fn=ps, how="string dispatch table")
         # -newerXY: x = group 1, y = group 2
